@@ -54,17 +54,25 @@ SPEC = {
                  "C10_code_observers", "C10_code_walks", "C10_traversals", "C10_code_refines_run", "C10_container_list_meets_spec", "C10_code_wrappers",
                  "C10_skeleton_writers", "C10_skeleton_readers", "C10_skeleton_pushlists", "C10_skeleton_type_shapes"],
     "trusted_base": [
-        "hand-written pointer-level model Hive/Model/DList.lean of ds/list_impl.go, tied by differential execution (harness/c10)",
-        "Go's container/list executed in the harness as the independent reference the property names",
+        "harness/c10/xlate: the go/ast translator from ds/list_impl.go and GOROOT container/list into the statement language "
+        "Hive/Model/DListIR.lean, and that language's interpreter (IR.exec) as the meaning of loads/stores/guards/calls; "
+        "the hand-written model Hive/Model/DList.lean is no longer trusted (proved equal to the translated code, C10_code_is_model) "
+        "and is additionally tied by differential execution (harness/c10), stale-handle histories included",
+        "Go's container/list executed in the harness as the independent reference the property names (and translated: "
+        "C10_code_same_as_container_list)",
         "Go toolchain, compiled Lean driver"],
     "modelled": [
-        "ds.list Init/lazyInit/Front/Back/PushFront/PushBack/Remove/InsertBefore/InsertAfter/MoveToFront/MoveToBack/MoveBefore/"
-        "MoveAfter/PushBackList/PushFrontList/insert/insertValue/remove/move and listElement.Prev/Next/Value as loads and stores "
-        "on a heap Nat -> {prev,next,owner,val} with two sentinel-rooted lists",
-        "threadSafeList = the same calls under one RWMutex: sequentially the same function; both flavours are executed by the harness",
-        "nil dereference and the 'unsupported ListElement type' panics are NOT modelled (unreachable from well-formed states); len is a Nat",
-        "handles that were live when Init was called on their list are excluded by hypothesis (okRun) and compared two-way only "
-        "(systematically: stale-focused histories, comparison continues through corrupted rings and negative Len)",
+        "ds.list Init/lazyInit/Front/Back/Len/PushFront/PushBack/Remove/InsertBefore/InsertAfter/MoveToFront/MoveToBack/MoveBefore/"
+        "MoveAfter/PushBackList/PushFrontList/insert/insertValue/remove/move, listElement.Prev/Next/Value (nil value pointer), "
+        "Range/RangeReverse/ForEach/ForEachReverse (error abort)/Values as loads and stores on a heap Nat -> {prev,next,owner,val} "
+        "with two sentinel-rooted lists; len is an Int (negative after a stale Remove)",
+        "the same functions regenerated from the working tree as statement lists (Hive/Gen/C10_Code.lean) with an interpreter; "
+        "container/list regenerated the same way",
+        "threadSafeList = the same calls under one RWMutex: sequentially the same function; both flavours are executed by the harness; "
+        "delegation table, constructors (newList calls Init; NewList flavour selection) pinned by regenerated obligations",
+        "nil dereference and the 'unsupported ListElement type' panics are NOT modelled (unreachable from well-formed states)",
+        "handles that were live when Init was called on their list are outside the refinement-to-specification theorems (okRun) but "
+        "inside the code theorems (same pointer program as container/list on every state) and inside the three-way differential",
         "concurrency of the thread-safe flavour is NOT modelled in Lean; it is smoke-tested by the harness (stress + forced "
         "two-writer schedules behind a parked reader; oracle: no panic/deadlock, well-formed ring, Len, element multiset; "
         "reader calls deliver exactly one snapshot), and its lock structure is a regenerated skeleton obligation (C10_skeleton_*)"],
@@ -72,16 +80,23 @@ SPEC = {
         "text": "Pointer-level Lean model of ds.List (heap of prev/next/owner/val nodes, two sentinel rings, the same loads/stores as "
                 "insert/remove/move) with theorems over every history: the ring well-formedness invariant is preserved "
                 "(C10_wf_preserved), every operation returns what the abstract container/list specification returns and commutes with "
-                "the abstraction (C10_refines, C10_refines_run), removed/foreign handles are no-ops (C10_foreign_noop), and "
-                "Front/Back/Prev/Next/Value/Values/reverse walk read off the abstract sequence (C10_neighbours). The model is "
-                "re-validated against the working tree on every run by a three-way differential run: both flavours of ds.List vs the "
-                "Lean driver vs Go's container/list on random two-list histories with live, removed, foreign, stale and nil handles.",
-        "note": "Trusted: Lean kernel; the hand-written model (tie = differential execution); container/list as reference. Histories "
-                "passing handles that were live before an Init are outside the theorems (both libraries leave them unspecified) and "
-                "are compared hive-vs-container/list only. Concurrency of the thread-safe flavour is outside the theorems; the harness "
-                "smoke-tests it (stress rounds, forced double-Remove schedules) with an in-Go oracle.",
-        "technique": "Lean 4 refinement proof (pointer-level ring invariant, ghost abstract sequence) + three-way differential correspondence",
+                "the abstraction (C10_refines, C10_refines_run), removed/foreign handles are no-ops (C10_foreign_noop), "
+                "Front/Back/Prev/Next/Value/Values/reverse walk and aborted traversals read off the abstract sequence (C10_neighbours, "
+                "C10_traversals). The model is proved equal, on every state, to the meaning of the code translated from the working "
+                "tree on every run (C10_code_is_model, C10_code_walks), whose statement lists are identical to those translated from "
+                "Go's container/list (C10_code_same_as_container_list, C10_code_is_container_list: same pointer program also for stale "
+                "handles), giving C10_code_refines_run end to end. The tie is re-validated by a three-way differential run: both "
+                "flavours of ds.List vs the Lean driver vs Go's container/list on random two-list histories with live, removed, "
+                "foreign and stale handles, aborted traversals, and Values() aliasing.",
+        "note": "Trusted: Lean kernel; the translator harness/c10/xlate and the interpreter of its statement language; container/list "
+                "as reference. Histories passing handles that were live before an Init are outside the specification theorems (both "
+                "libraries leave them unspecified) but inside the code-level theorems and the differential. Concurrency of the "
+                "thread-safe flavour is outside the theorems; the harness smoke-tests it (stress rounds, forced schedules, reader "
+                "snapshots) with an in-Go oracle and its lock structure is a regenerated obligation.",
+        "technique": "Lean 4 refinement proof (pointer-level ring invariant, ghost abstract sequence) + source-to-IR translation with "
+                     "model = code theorems + three-way differential correspondence",
     },
-    "assumptions": ["no operation is given a handle that was live in a list when Init was called on that list (okRun)",
+    "assumptions": ["no operation is given a handle that was live in a list when Init was called on that list (okRun) - for the "
+                    "refinement-to-specification theorems only; the C10_code_* theorems are unconditional",
                     "sequential histories (the property quantifies over histories, not schedules)"],
 }
